@@ -37,7 +37,7 @@ BIN = "vh_vmcrypto"
 NAMES = {0x2a: "BHSH", 0x2b: "BHEI", 0x31: "CB", 0x43: "TIME", 0x42: "S256", 0x41: "K256", 0x3e: "ECK1", 0x3f: "ECR1", 0x40: "ED19",
          0xbc: "ECOP", 0xbe: "EPAR"}
 # every part of the recorder except `blockbig` (BHSH with a height operand >= 2^32: contradicts the instruction-set text, see NOTES)
-PARTS = "hash,sig,ed,ecop,epar,block,frame"
+PARTS = "hash,sig,ed,ecop,epar,block,frame,blockbig"
 
 RULE = ("one Step event per executed instruction; distinct = distinct (instruction, outcome, panic reason, $err written, destination "
         "written, gas class, kind of driver expectation, in a contract frame) tuples over the steps of the eleven instructions")
@@ -57,20 +57,27 @@ def _fields(e):
     return w >> 24, (w >> 18) & 63, (w >> 12) & 63, (w >> 6) & 63, w & 63
 
 
+def _reason(e):
+    """panic reason of a step: exec mode logs it directly, run mode in the Panic receipt of the terminal step"""
+    if e.get("reason"):
+        return e["reason"]
+    for r in e.get("rc", []):
+        if r.get("kind") == "Panic":
+            return r.get("reason")
+    return None
+
+
 def class_of(dom, e):
     """stable violation class of a rejected event"""
     if _is_mine(e):
-        op, ra, rb, rc, rd = _fields(e)
-        name = NAMES[op]
-        if name == "BHSH" and e.get("out") == "panic" and e.get("reason") == "InvalidBlockHeight":
-            try:
-                if int(e.get("poke", {}).get(str(rb), "0")) >= 1 << 32:
-                    return "vmcrypto/BHSH/height>=2^32/InvalidBlockHeight"
-            except ValueError:
-                pass
+        name = NAMES[_op(e)]
+        reason = _reason(e)
+        if name == "BHSH" and reason == "InvalidBlockHeight":
+            # the only way BHSH reports this reason: a height operand that is not a 32-bit number (docs/NOTES_vmcrypto.md, Findings)
+            return "vmcrypto/BHSH/height>=2^32/InvalidBlockHeight"
         parts = ["vmcrypto", name, str(e.get("out") or ("terminal" if "fin" in e else "cont"))]
-        if e.get("reason"):
-            parts.append(e["reason"])
+        if reason:
+            parts.append(reason)
         if "exp" in e:
             parts.append("exp=" + str(e["exp"].get("k")))
         return "/".join(parts)
